@@ -82,4 +82,22 @@ CLAIMS = {
                    'only if absent or already loaded); by-target recursion marks before descending.',
         'not_decided': 'that a following build re-creates the removed files.',
     },
+    'C01': {
+        'design': '5.1',
+        'technique': 'RejectIf dirty verdicts + timestamp comparison contract + full-range/skip-exact loops + reaching-definition typestate + provenance over clang CFG facts',
+        'decides': 'each dirty reason (missing output, output older than input, command hash, logged mtime older '
+                   'than input, no log entry) has a branch whose dirty side cannot return clean, in both '
+                   'instantiations of the check; the timestamp comparisons that control verdicts have the '
+                   'documented relation and direction (deps validity, max-updates), and no unlisted timestamp '
+                   'comparison exists in graph.cc/build.cc; the scan covers the whole input range (initial range '
+                   '= inputs_, discovered range = what LoadDeps returned) with no extra skip and re-checks outputs '
+                   'afterwards; deps loading is skipped only under a variable whose sole definitions are the '
+                   'outputs-dirty result (so Plan::CleanNode cannot revoke a verdict taken without deps); the '
+                   'recorded mtime is the pre-spawn lock-file stat except for restat/generator/unknown; the plan '
+                   'recurses into every input, wants exactly dirty nodes, adds all validations; a rebuilt manifest '
+                   'is re-read before building; discovered paths are canonicalised before interning; scan/plan '
+                   'errors never become success.',
+        'not_decided': 'equality of file contents with a from-scratch build over histories and schedules; anything '
+                       'depending on real mtimes; correctness of the plan under dyndep surgery.',
+    },
 }
